@@ -233,10 +233,10 @@ PoolArith3 == {
   S(<<Tm(Ops3("Z", "Z", "I"), COne), Tm(Ops3("I", "X", "Y"), CI), Tm(Ops3("I", "I", "I"), CInt(2))>>),
   N(CInt(2)), N(CI), N(CMinus) }
 \* chains of operations on ONE evolving object (also through +=, -=, *=): a three-term sum, the negation of its first
-\* term, its second term, scalars (zero on either side), a constant
+\* term, its second term, a term on its third string, scalars (zero on either side)
 PoolChain == {
   S(<<Tm(Ops2("X", "I"), COne), Tm(Ops2("I", "Z"), COne), Tm(Ops2("Y", "Y"), COne)>>), T(Ops2("X", "I"), CMinus), T(Ops2("I", "Z"), COne),
-  T(Ops2("Y", "Y"), CI), S(<<Tm(Ops2("Z", "Z"), CHalf), Tm(Ops2("X", "I"), COne)>>), T(Ops2("I", "I"), COne), N(CZero), N(CInt(2)) }
+  T(Ops2("Y", "Y"), CI), N(CZero), N(CInt(2)) }
 PoolEmptySum == {S(<<>>)}
 PoolStrings == {T(o, COne) : o \in [1..NQ -> Letters]}
 PoolC09_2 == { T(Ops2("Y", "I"), COne), T(Ops2("I", "Y"), CI), T(Ops2("Y", "Y"), CHalf), T(Ops2("X", "Z"), CPlusI), T(Ops2("I", "I"), CInt(2)),
